@@ -10,7 +10,7 @@
 
      parse_blocks_ok_or_rem   parse_blocks o x = Ok r, or Panic s with s in rem_sites — every input, every option set
 
-   rem_sites is the exact list of the Panic sites not yet excluded (37 strings, pinned in Props/Blocks.v). *)
+   rem_sites is the exact list of the Panic sites not yet excluded (36 strings, pinned in Props/Blocks.v). *)
 From Coq Require Import List NArith Arith Bool Lia Strings.String.
 From V Require Import Base.Bytes Base.Res Gen.Nodes Gen.BlocksConst Gen.FeedConst Model.Ast Model.Strings Model.Entity Model.LinkUrl Model.ListMarker
   Model.Feed Model.FrontMatter Model.RefDef Model.Scan Model.Blocks Spec.EscapeSpec
@@ -62,8 +62,7 @@ Definition rem_sites : list string :=
     (* leaf functions whose unconditional totality is refuted (Props/StrLeaf.v) *)
     "strings.rs:remove_trailing_blank_lines:line.len() - 1";
     "strings.rs:chop_trailing_hashtags:line.len() - 1";
-    "strings.rs:chop_trailing_hashtags:line[n]";
-    "strings.rs:clean_title:title[1..title_len - 1]" ].
+    "strings.rs:chop_trailing_hashtags:line[n]" ].
 
 Definition base_sites : list string := tree_sites ++ cur_sites ++ rem_sites.
 Definition alo : string -> bool := only base_sites.
@@ -118,8 +117,14 @@ Proof. unfold remove_trailing_blank_lines. nggo. Qed.
 Lemma ngo_chop_trailing_hashtags s : ngo (chop_trailing_hashtags s).
 Proof. unfold chop_trailing_hashtags. nggo. Qed.
 Lemma ngo_clean_url s : ngo (clean_url s). Proof. unfold clean_url. nggo. Qed.
-Lemma ngo_clean_title s : ngo (clean_title s). Proof. unfold clean_title. nggo. Qed.
-#[export] Hint Resolve ngo_remove_trailing_blank_lines ngo_chop_trailing_hashtags ngo_clean_url ngo_clean_title : ngo.
+(* clean_title panics on a title of length 1 only (Props/StrLeaf.v); its one caller hands it a scan_link_title match *)
+Lemma ngo_clean_title s : List.length s <> 1 -> ngo (clean_title s).
+Proof. intro H. apply ng_ex. now apply clean_title_total. Qed.
+#[export] Hint Resolve ngo_remove_trailing_blank_lines ngo_chop_trailing_hashtags ngo_clean_url : ngo.
+Lemma scan_link_title_ge s m : scan_link_title s = Some m -> 2 <= m.
+Proof. BlocksTotal4Scan.scan_ge. Qed.
+Lemma scan_link_title_le s m : scan_link_title s = Some m -> m <= List.length s.
+Proof. intro H. eapply as_opt_usize_cursor_le; [|exact H]. vm_compute. reflexivity. Qed.
 Lemma ngo_fm_line_at s k : ngo (fm_line_at s k). Proof. unfold fm_line_at, fm_slice, byte_slice_from. nggo. Qed.
 #[export] Hint Resolve ngo_fm_line_at : ngo.
 Lemma ngo_find_closing_line : forall fuel s d e, ngo (find_closing_line fuel s d e).
@@ -143,7 +148,29 @@ Proof. induction fuel as [|f IH]; intros s pos len c; cbn [label_loop]; nggo. Qe
 Lemma ngo_link_label s : ngo (link_label s). Proof. unfold link_label. nggo. Qed.
 #[export] Hint Resolve ngo_link_label : ngo.
 Lemma ngo_parse_reference_inline fold m s : ngo (parse_reference_inline fold m s).
-Proof. unfold parse_reference_inline. nggo. Qed.
+Proof.
+  unfold parse_reference_inline.
+  apply ng_bind; [auto with ngo|]. intros [[lab pos]|] _; [|exact I]. destruct lab as [|l0 lab]; [exact I|].
+  apply ng_bind; [auto with ngo|]. intros [c|] _; [|exact I]. destruct (negb (beqb c x3a)); [exact I|]. cbv zeta.
+  apply ng_bind; [auto with ngo|]. intros pos1 _.
+  apply ng_bind; [auto with ngo|]. intros [[url matchlen]|] _; [|exact I].
+  apply ng_bind; [auto with ngo|]. intros pos2 _.
+  match goal with |- ng _ _ (let '(title, pos) := ?tp in _) =>
+    assert (HT : List.length (fst tp) <> 1); [|destruct tp as [title pos3]; cbn [fst] in HT] end.
+  { destruct (Nat.eqb pos2 (pos1 + matchlen)); [cbn; lia|].
+    destruct (scan_link_title (skipn pos2 s)) as [ml|] eqn:Sc; [|cbn; lia].
+    pose proof (scan_link_title_ge _ _ Sc). pose proof (scan_link_title_le _ _ Sc). cbn [fst]. rewrite firstn_length. lia. }
+  apply ng_bind; [auto with ngo|]. intros n _.
+  apply ng_bind; [auto with ngo|]. intros [p1 ok] _.
+  eapply sg_bind with (P := fun fin : option (nat * bytes) => match fin with Some (_, t) => List.length t <> 1 | None => True end).
+  { destruct ok; [exact HT|]. destruct title; [exact I|].
+    apply sgb; [auto with ngo|]. intros n2 _. apply sgb; [auto with ngo|]. intros [p2 ok2] _.
+    destruct ok2; cbn [sg List.length]; [lia | exact I]. }
+  intros [[posf t]|] _ Hf; [|exact I].
+  destruct (normalize_label fold (l0 :: lab) true); [exact I|].
+  apply ng_bind; [auto with ngo|]. intros cu _.
+  apply ng_bind; [now apply ngo_clean_title|]. intros ct _. nggo.
+Qed.
 #[export] Hint Resolve ngo_parse_reference_inline : ngo.
 Lemma ngo_resolve_loop fold : forall fuel m seek seeked, ngo (resolve_loop fuel fold m seek seeked).
 Proof. induction fuel as [|f IH]; intros m seek seeked; cbn [resolve_loop]; nggo. Qed.
